@@ -267,6 +267,19 @@ func c20Worker(ctx *core.Ctx) *core.Result {
 				x.viaBinary = false
 			}
 		}
+		if c.Model == "PAN-OS" && b.Main != "" {
+			// a group cycle that only the merged target holds
+			x.viaBinary = true
+			xmlCrossCycles(b.Main, func(mainText, other string) {
+				nb := b
+				nb.Main, nb.Raw = mainText, other
+				x.runOne(c.Model, a, nb, "raw", "xml-cross-cycle", id("raw", "xml-cross-cycle"))
+				nb = b
+				nb.Main, nb.V6 = mainText, other
+				x.runOne(c.Model, a, nb, "code6", "xml-cross-cycle", id("code6", "xml-cross-cycle"))
+			})
+			x.viaBinary = false
+		}
 		// role changes of whole files: the IPv4 code also given as raw file
 		// or as IPv6 code, the raw file given as code
 		if b.Main != "" {
